@@ -415,3 +415,63 @@ V("pass-fuse-loops-ignores-end", ["C17"], PE, "fire", (OPTF, "            id = (
 V("pass-fuse-sections-drops-declarations", ["C17"], PE, "fire", (OPTF, "                declarations.extend(section.declarations)\n", ""))
 V("pass-fuse-sections-keeps-last-only", ["C17"], PE, "fire", (OPTF, "                statements.extend(section.statements)", "                statements = list(section.statements)"))
 V("pass-optimize-skips-licm", ["C17"], PE, "benign", (OPTF, "            if L.Annotation.licm in section.annotations:\n                section = licm(section, quadrature_rule)", "            if False:\n                section = licm(section, quadrature_rule)"))
+
+# ---- rules added after the third seeding round --------------------------------------------------------
+TI = ["TABLE-INDEX"]
+V("tidx-symbols-perm-only-restricted", ["C04", "C03"], TI, "fire",
+  (SYM, "        if tabledata.is_permuted:\n            qp = self.quadrature_permutation[0]\n            if restriction == \"-\":", "        if tabledata.is_permuted and restriction is not None:\n            qp = self.quadrature_permutation[0]\n            if restriction == \"-\":"),
+  (SYM, "                qp = self.quadrature_permutation[1]\n        else:\n            qp = 0", "                qp = self.quadrature_permutation[1]\n        else:\n            qp = 0\n        qp = qp if tabledata.is_permuted and restriction is not None else 0"))
+V("tidx-access-entity-always", ["C02", "C08"], TI, "fire", (ACC, "        if tabledata.is_uniform:\n            entity = L.LiteralInt(0)\n", "        if False:\n            entity = L.LiteralInt(0)\n"))
+V("tidx-access-piecewise-dropped", ["C02", "C08"], TI, "fire", (ACC, "        if tabledata.is_piecewise:\n            iq_global_index = L.LiteralInt(0)\n", ""))
+V("tidx-access-minus-uses-slot0", ["C02", "C03"], TI + ["SLOT-RESTRICTION"], "fire", (ACC, "            if restriction == \"-\":\n                qp = self.symbols.quadrature_permutation[1]", "            if restriction == \"-\":\n                qp = self.symbols.quadrature_permutation[0]"))
+V("tidx-uniform-pred-first-point", ["C02"], TI, "fire", (ET, "        np.allclose(table[0, 0, :, :], table[0, i, :, :], rtol=rtol, atol=atol)", "        np.allclose(table[0, 0, 0, :], table[0, i, 0, :], rtol=rtol, atol=atol)"))
+V("tidx-piecewise-pred-skips-last", ["C02"], TI, "fire", (ET, "        for i in range(1, table.shape[2])\n    )", "        for i in range(1, table.shape[2] - 1)\n    )"))
+V("tidx-benign-ifexp", ["C02", "C04"], TI, "benign",
+  (SYM, "        if tabledata.is_piecewise:\n            iq = 0\n        else:\n            iq = self.quadrature_loop_index\n", "        iq = 0 if tabledata.is_piecewise else self.quadrature_loop_index\n"))
+V("tidx-reduce-wrong-axis", ["C02"], TI, "fire", (ET, "            tbl = tbl[:, :, :1, :]", "            tbl = tbl[:, :1, :, :]"))
+
+ECP = ["EXPR-COEF-POS"]
+V("ecp-positions-of-processed", ["C04", "C05"], ECP, "fire", (REP, "    original_coefficients = ufl.algorithms.extract_coefficients(original_expr)", "    original_coefficients = ufl.algorithms.extract_coefficients(expr)"))
+V("ecp-iterate-original", ["C04", "C05"], ECP, "fire", (REP, "    for coeff in coefficients:\n        original_coefficient_positions.append(original_coefficients.index(coeff))", "    for coeff in original_coefficients:\n        original_coefficient_positions.append(original_coefficients.index(coeff))"))
+V("ecp-triple-swapped", ["C04"], ECP, "fire", (AN, "        processed_expressions += [(processed_expression, points, original_expression)]", "        processed_expressions += [(original_expression, points, processed_expression)]"))
+V("ecp-benign-rename", ["C04"], ECP, "benign", (REP, "    original_coefficients = ufl.algorithms.extract_coefficients(original_expr)\n    for coeff in coefficients:\n        original_coefficient_positions.append(original_coefficients.index(coeff))",
+  "    all_coeffs = ufl.algorithms.extract_coefficients(original_expr)\n    for coeff in coefficients:\n        original_coefficient_positions.append(all_coeffs.index(coeff))"))
+
+FKA = ["FORM-KERNEL-ALIGN"]
+V("fka-numba-ids-per-group", ["C18"], FKA, "fire", ("ffcx/codegeneration/numba/form.py", "            f\"{i}\" for i, domains in zip(integrals.ids, integrals.domains) for _ in domains", "            f\"{i}\" for i in integrals.ids"))
+V("fka-c-ids-per-group", ["C06", "C18"], FKA, "fire", ("ffcx/codegeneration/C/form.py", "            f\"{i}\" for i, domains in zip(integrals.ids, integrals.domains) for _ in domains", "            f\"{i}\" for i, domains in zip(integrals.ids, integrals.domains)"))
+
+CJ = ["CONJ-LAW", "FACT-LAWS"]
+V("conj-literal-passthrough", ["C09", "C01"], CJ, "fire", (FAC, "            factors[k] = graph_insert(F, Conj(f0))", "            factors[k] = fac[k] if f0._ufl_is_literal_ else graph_insert(F, Conj(f0))"))
+V("conj-dropped", ["C09", "C01"], CJ, "fire", (FAC, "            factors[k] = graph_insert(F, Conj(f0))", "            factors[k] = graph_insert(F, f0)"))
+V("fact-conditional-two-loops", ["C01"], ["FACT-LAWS"], "fire",
+  (FAC, "        mas = sorted(set(fac1.keys()) | set(fac2.keys()))\n        factors = {}\n        for k in mas:\n            fi1 = fac1.get(k)\n            fi2 = fac2.get(k)\n            f1 = z if fi1 is None else F.nodes[fi1][\"expression\"]\n            f2 = z if fi2 is None else F.nodes[fi2][\"expression\"]\n            factors[k] = graph_insert(F, conditional(f0, f1, f2))",
+        "        factors = {}\n        for k in sorted(fac1):\n            f1 = F.nodes[fac1[k]][\"expression\"]\n            factors[k] = graph_insert(F, conditional(f0, f1, z))\n        for k in sorted(fac2):\n            f2 = F.nodes[fac2[k]][\"expression\"]\n            factors[k] = graph_insert(F, conditional(f0, z, f2))"))
+V("fact-conditional-two-loops-merged", ["C01"], ["FACT-LAWS"], "benign",
+  (FAC, "        mas = sorted(set(fac1.keys()) | set(fac2.keys()))\n        factors = {}\n        for k in mas:\n            fi1 = fac1.get(k)\n            fi2 = fac2.get(k)\n            f1 = z if fi1 is None else F.nodes[fi1][\"expression\"]\n            f2 = z if fi2 is None else F.nodes[fi2][\"expression\"]\n            factors[k] = graph_insert(F, conditional(f0, f1, f2))",
+        "        factors = {}\n        for k in sorted(fac1):\n            f1 = F.nodes[fac1[k]][\"expression\"]\n            f2 = F.nodes[fac2[k]][\"expression\"] if k in fac2 else z\n            factors[k] = graph_insert(F, conditional(f0, f1, f2))\n        for k in sorted(fac2):\n            if k in fac1:\n                continue\n            f2 = F.nodes[fac2[k]][\"expression\"]\n            factors[k] = graph_insert(F, conditional(f0, z, f2))"))
+V("fact-product-benign-swap", ["C01"], ["FACT-LAWS"], "benign", (FAC, "                factors[argkey] = graph_insert(F, f0 * f1)", "                factors[argkey] = graph_insert(F, f1 * f0)"))
+
+QM = ["QMETA-FLOW"]
+V("qmeta-degree-loop-carried", ["C11", "C01"], QM, "fire",
+  (AN, "        for i, integral in enumerate(integral_data.integrals):\n            metadata = integral.metadata()\n", "        qd = -1\n        for i, integral in enumerate(integral_data.integrals):\n            metadata = integral.metadata()\n"),
+  (AN, "                qd = -1\n                if \"quadrature_degree\" in metadata.keys():\n                    qd = metadata[\"quadrature_degree\"]", "                qd = metadata.get(\"quadrature_degree\", qd)"))
+V("qmeta-degree-falsy", ["C11", "C01"], QM, "fire", (AN, "                qd = -1\n                if \"quadrature_degree\" in metadata.keys():\n                    qd = metadata[\"quadrature_degree\"]", "                qd = metadata.get(\"quadrature_degree\") or -1"))
+V("qmeta-degree-benign-get", ["C11", "C01"], QM, "benign", (AN, "                qd = -1\n                if \"quadrature_degree\" in metadata.keys():\n                    qd = metadata[\"quadrature_degree\"]", "                qd = metadata.get(\"quadrature_degree\", -1)"))
+V("qmeta-guard-le-zero", ["C11", "C01"], QM, "fire", (AN, "                if qd < 0:\n                    qd = int(", "                if qd <= 0:\n                    qd = int("))
+
+OG = ["OPT-GATE", "RULE-SCOPED-NAMES"]
+V("optgate-diag-filter-removed", ["C10"], OG, "fire", (
+  "ffcx/ir/integral.py", "        if (\n            TensorPart.from_str(p[\"part\"]) == TensorPart.diagonal\n            and len(blockmap) == 2\n            and blockmap[0] != blockmap[1]\n        ):", "        if False:"))
+V("optgate-diag-filter-unguarded", ["C10"], OG, "fire", (
+  "ffcx/ir/integral.py", "            TensorPart.from_str(p[\"part\"]) == TensorPart.diagonal\n            and len(blockmap) == 2\n            and blockmap[0] != blockmap[1]", "            TensorPart.from_str(p[\"part\"]) == TensorPart.diagonal\n            and blockmap[0] != blockmap[1]"))
+V("optgate-tf-name-unscoped", ["C10", "C19"], OG, "fire", (ET, "                        name=f\"FE_TF{tensor_n}_Q{quadrature_rule.id()}\",", "                        name=f\"FE_TF{tensor_n}\","))
+V("optgate-tf-reuse-by-shape", ["C10"], OG, "fire", (ET, "                    if tensor_factor.values.shape == sub_tbl.shape and np.allclose(\n                        tensor_factor.values, sub_tbl\n                    ):", "                    if tensor_factor.values.shape == sub_tbl.shape:"))
+V("optgate-tf-reuse-equal-tables", ["C10"], OG, "benign", (ET, "                    if tensor_factor.values.shape == sub_tbl.shape and np.allclose(\n                        tensor_factor.values, sub_tbl\n                    ):", "                    if equal_tables(tensor_factor.values, sub_tbl):"))
+
+V("permaxis-benign-local-alias", ["C03", "C08"], ["PERM-AXIS"], "benign",
+  (ET, "                    if cell_type == \"tetrahedron\":\n                        new_table = []\n                        for rot in range(3):", "                    if cell_type == \"tetrahedron\":\n                        pq = permute_quadrature_triangle\n                        new_table = []\n                        for rot in range(3):"),
+  (ET, "                                        permute_quadrature_triangle(\n                                            quadrature_rule.points, ref, rot\n                                        ),", "                                        pq(\n                                            quadrature_rule.points, ref, rot\n                                        ),"))
+V("permaxis-alias-wrong-map", ["C03", "C08"], ["PERM-AXIS"], "fire",
+  (ET, "                    if cell_type == \"tetrahedron\":\n                        new_table = []\n                        for rot in range(3):", "                    if cell_type == \"tetrahedron\":\n                        pq = permute_quadrature_quadrilateral\n                        new_table = []\n                        for rot in range(3):"),
+  (ET, "                                        permute_quadrature_triangle(\n                                            quadrature_rule.points, ref, rot\n                                        ),", "                                        pq(\n                                            quadrature_rule.points, ref, rot\n                                        ),"))
